@@ -110,7 +110,7 @@ def cases(ctx, oracle_only=False):
 
 
 def run(ctx, oracle_only=False):
-    ctx.rule = RULE + WIDE_RULE
+    ctx.rule = RULE + WIDE_RULE + LARGE_RULE
     cs = cases(ctx)
     ops, impls = [], []
     for kind, aj, arg in cs:
@@ -140,11 +140,13 @@ def run(ctx, oracle_only=False):
         impls.append(r)
     if oracle_only:
         run_wide(ctx, oracle_only=True)
+        run_large(ctx, oracle_only=True)
         return
     models = ctx.lean.run(ops)
     for inp, r, m in zip(ops, impls, models):
         ctx.compare(inp["op"], inp, r, m)
     run_wide(ctx)
+    run_large(ctx)
 
 
 # =============================================================================================== widened index domain
@@ -276,6 +278,76 @@ def run_wide(ctx, oracle_only=False):
                 bad = oracle_delete(aj, sorted(dead), r)
                 if bad:
                     ctx.fail("del a[%s] on %d atoms: %s" % (arg, n, bad), op, observed=r)
+        ops.append(op)
+        impls.append(_norm_err(r))
+    if oracle_only:
+        return
+    models = ctx.lean.run(ops)
+    for op, r, m in zip(ops, impls, models):
+        ctx.compare(op["op"], op, r, _norm_err(m))
+
+
+# =============================================================================================== large structures
+
+LARGE_RULE = (" Large structures (stream 'large'): 200-600 atoms, a few terms clustered on atoms that share terms, 15-40 "
+              "deleted indices spread over the whole index range — none of them on a term (every term must survive, "
+              "re-numbered), or a few of them on the cluster; same oracle, model compared as well.")
+
+
+def large_cases(ctx):
+    """structures whose size and index spread differ by orders of magnitude from the term arrays (library routines
+    switch algorithms on such ratios): (structure, index list)"""
+    rng = ctx.rng
+    out = []
+    for _ in range(ctx.n(14, 120)):
+        n = rng.randint(200, 600)
+        aj = gen.rand_atoms(rng, n=n, kinds=[], extras=False, cell=rng.choice(["ortho", False]), ntypes=rng.randint(1, 3))
+        clusters = []
+        for _c in range(rng.choice([1, 1, 2])):
+            c0 = rng.randint(0, n - 8)
+            clusters.append(list(range(c0, c0 + rng.randint(4, 7))))
+        for k in gen.KINDS:
+            ar = gen.ARITY[k]
+            terms = []
+            for cl in clusters:
+                for i in range(len(cl) - ar + 1):
+                    if k == "bond" or rng.random() < 0.7:
+                        tup = cl[i:i + ar]
+                        if rng.random() < 0.3:
+                            tup = tup[::-1]
+                        terms.append({"a": tup, "ty": rng.randrange(2), "x": []})
+            aj["terms"][k] = terms
+            aj["types"][k] = ["%s_c%d 1.0" % (k, i) for i in range(2)] if terms and rng.random() < 0.7 else []
+            aj["xlabels"][k] = []
+        used = {x for cl in clusters for x in cl}
+        free = [i for i in range(n) if i not in used]
+        m = rng.randint(15, 40)
+        idx = rng.sample(free, m - 2) + [min(free), max(free)]        # spread over the whole index range
+        u = rng.random()
+        if u < 0.3:          # a few of the deleted atoms carry terms
+            idx += rng.sample(sorted(used), rng.randint(1, 2))
+        idx = list(dict.fromkeys(idx))
+        rng.shuffle(idx)
+        if rng.random() < 0.3:
+            idx = respell(rng, idx, n, 0.4)
+        out.append((aj, idx, "touching" if u < 0.3 else "free"))
+    return out
+
+
+def run_large(ctx, oracle_only=False):
+    ops, impls = [], []
+    for aj, idx, variant in large_cases(ctx):
+        n = len(aj["atoms"])
+        op = {"op": "delete_norm" if any(i < 0 for i in idx) else "delete", "a": aj, "idx": idx}
+        r = _delete(aj, idx)
+        dead = {i % n for i in idx}
+        bad = oracle_delete(aj, sorted(dead), r)
+        touched = [bool(set(t["a"]) & dead) for k in gen.KINDS for t in aj["terms"][k]]
+        ctx.case(op, nontrivial=(not all(touched)))
+        ctx.count("large:" + variant)
+        ctx.count("large:n%d00" % (n // 100))
+        if bad:
+            ctx.fail("del a[%d indices] on %d atoms: %s" % (len(idx), n, bad), op, observed={k: r["ok"]["terms"][k] for k in gen.KINDS} if "ok" in r else r)
         ops.append(op)
         impls.append(_norm_err(r))
     if oracle_only:
